@@ -93,43 +93,40 @@ structure FieldGood (members : List (String × Json)) (f : Field) (pv : PyVal) :
 
 theorem py_field_step {n : Nat} {ss : Schemas} (ih : PyIH n ss) (dfl : Ty → DRes PyVal)
     (members : List (String × Json)) (f : Field)
-    (h : pyFieldOK (pyDen n ss) members f = true) :
-    ∃ pv, pyFieldWith (pyFromJson n ss) dfl members f = .ok (f.name, f.required, pv) ∧
+    (h : pyFieldOK ss (pyDen n ss) members f = true) :
+    ∃ pv, pyFieldWith ss (pyFromJson n ss) dfl members f = .ok (f.name, f.required, pv) ∧
       FieldGood members f pv := by
   unfold pyFieldOK at h
-  simp only [Bool.and_eq_true, Bool.not_eq_true'] at h
-  obtain ⟨⟨hcref, hslot⟩, h⟩ := h
-  have hcv : crefVal f.ty = none := by
-    unfold isCref at hcref
-    cases hc : crefVal f.ty with
-    | none => rfl
-    | some _ => simp [hc] at hcref
+  have hsome := fixedValue_isSome ss f.ty
   unfold pyFieldWith initFieldWith
-  cases hc : constOf f.ty with
-  | some c =>
-    have hconst : isConstField f = true := by simp [isConstField, hc]
-    simp only [hc] at h
-    cases hp : valToPy c with
-    | none => simp [hp] at h
-    | some pv =>
+  cases hfix : fixedValue ss f.ty with
+  | some r =>
+    have hconst : isConstField f = true := by
+      rw [hfix] at hsome; simpa [isConstField] using hsome.symm
+    simp only [hfix] at h
+    cases r with
+    | ok pv =>
       cases hl : Json.lookup f.name members with
-      | none => simp [hp, hl] at h
+      | none => simp [hl] at h
       | some v =>
-        simp only [hp, hl, Bool.and_eq_true, Bool.not_eq_true'] at h
+        simp only [hl, Bool.and_eq_true, Bool.not_eq_true'] at h
         refine ⟨pv, ?_, ⟨?_, ?_⟩⟩
-        · simp [hconst, hcv, hslot, hp, ofOpt, DRes.map, DRes.bind]
+        · simp [hconst, DRes.map, DRes.bind]
         · intro v' hv'
           rw [hl] at hv'; cases hv'
           exact ⟨h.1.2, h.2, fun _ => h.1.1⟩
         · intro hn; rw [hl] at hn; cases hn
+    | err | unsup _ | fuel => simp at h
   | none =>
-    have hconst : isConstField f = false := by simp [isConstField, hc, hcref]
-    simp only [hc] at h
+    have hconst : isConstField f = false := by
+      rw [hfix] at hsome; simpa [isConstField] using hsome.symm
+    simp only [hfix, Bool.and_eq_true, Bool.not_eq_true'] at h
+    obtain ⟨hslot, h⟩ := h
     cases hl : Json.lookup f.name members with
     | none =>
       simp only [hl, Bool.and_eq_true, Bool.not_eq_true'] at h
       refine ⟨.none, ?_, ⟨?_, ?_⟩⟩
-      · simp [hconst, hcv, hslot, h.2, DRes.map, DRes.bind]
+      · simp [hconst, hslot, h.2, DRes.map, DRes.bind]
       · intro v hv; rw [hl] at hv; cases hv
       · intro _; exact ⟨rfl, h.1⟩
     | some v =>
@@ -137,7 +134,7 @@ theorem py_field_step {n : Nat} {ss : Schemas} (ih : PyIH n ss) (dfl : Ty → DR
       obtain ⟨hd, hcond⟩ := h
       obtain ⟨pv, hpv, g⟩ := ih f.ty v hd
       refine ⟨pv, ?_, ⟨?_, ?_⟩⟩
-      · simp only [hconst, hpv, DRes.bind, hcv, hslot, Bool.false_eq_true, if_false]
+      · simp only [hconst, hpv, DRes.bind, hslot, Bool.false_eq_true, if_false]
         cases hr : isRefLike f.ty with
         | false => simp [DRes.map, DRes.bind]
         | true =>
@@ -154,14 +151,14 @@ theorem py_fields_case {n : Nat} {ss : Schemas} (ih : PyIH n ss) (dfl : Ty → D
     (fields : List Field) (members : List (String × Json))
     (ndm : keysNodup members = true) (ndf : namesNodup (fields.map (·.name)) = true)
     (hsub : members.all (fun kv => (fields.map (·.name)).contains kv.1) = true)
-    (hden : fields.all (pyFieldOK (pyDen n ss) members) = true) :
-    ∃ fl, mapRes (pyFieldWith (pyFromJson n ss) dfl members) fields = .ok fl ∧
+    (hden : fields.all (pyFieldOK ss (pyDen n ss) members) = true) :
+    ∃ fl, mapRes (pyFieldWith ss (pyFromJson n ss) dfl members) fields = .ok fl ∧
       Json.subMembers (pyEncReq fl ++ pyEncOpt fl) members = true ∧
       Json.subMembers members (pyEncReq fl ++ pyEncOpt fl) = true := by
   have hsub' : ∀ kv ∈ members, (fields.map (·.name)).contains kv.1 = true := by
     simpa [List.all_eq_true] using hsub
   have step : ∀ fs : List Field, (∀ f ∈ fs, f ∈ fields) →
-      ∃ fl, mapRes (pyFieldWith (pyFromJson n ss) dfl members) fs = .ok fl ∧
+      ∃ fl, mapRes (pyFieldWith ss (pyFromJson n ss) dfl members) fs = .ok fl ∧
         All2 (fun (f : Field) (e : String × Bool × PyVal) =>
           e.1 = f.name ∧ e.2.1 = f.required ∧ FieldGood members f e.2.2) fs fl := by
     intro fs
